@@ -28,3 +28,4 @@ mk telnet-bytes "telnet login loses bytes" C15 "contract errors"
 mk telnet-deadline "ignores the context deadline" C15 "DialContext/"
 mk body-long "drops the text from the first line" C18 "StringToBody/"
 mk body-rune "splits a multi-byte character" C18 "cut-on-boundary"
+mk ardop-cmd-crcfault "commands are sent again when the TNC answers CRCFAULT" C14 "contract-fits-code"
